@@ -16,6 +16,7 @@ CONSTANTS CtxPool,          \* context name -> [rules : set of [src, dst, coef, 
           NoParam,
           KwVals,           \* keyword values offered to enable()
           MaxOps,
+          CtxPairs,         \* pairs <<c1, c2>> of contexts offered to the two-name forms enable_contexts(c1, c2) / context(c1, c2)
           Alphabet          \* which kinds of operation the bounded instance offers
 
 VARIABLES active,   \* Seq([ctx, p])  head = most recently enabled; p = effective parameter or NoParam
@@ -146,6 +147,22 @@ WithEnter(c, kw) == /\ "with" \in Alphabet /\ Valid(c)
                     /\ UNCHANGED <<extra, defsys>> /\ Same /\ Log(<<"with_enter", c, kw>>, "ok")
 WithEnterFails(c, kw) == /\ "with" \in Alphabet /\ ~Valid(c)
                          /\ UNCHANGED <<active, frames, extra, defsys>> /\ Same /\ Log(<<"with_enter", c, kw>>, "error")
+\* several contexts named in ONE call (enable_contexts(c1, c2) / with ureg.context(c1, c2)): activated together, the
+\* last-named innermost; both take their parameters from the call and the contexts enclosing the *call* (c2 does not
+\* see c1's); if either is ill-formed nothing at all is activated; the with-block's frame covers both
+Enable2(c1, c2) == /\ "enable2" \in Alphabet /\ Valid(c1) /\ Valid(c2)
+                   /\ \E p1 \in ParamChoices(c1, NoParam), p2 \in ParamChoices(c2, NoParam) :
+                         active' = <<[ctx |-> c2, p |-> p2], [ctx |-> c1, p |-> p1]>> \o active
+                   /\ UNCHANGED <<frames, extra, defsys>> /\ Same /\ Log(<<"enable2", c1, c2>>, "ok")
+Enable2Fails(c1, c2) == /\ "enable2" \in Alphabet /\ ~(Valid(c1) /\ Valid(c2))
+                        /\ UNCHANGED <<active, frames, extra, defsys>> /\ Same /\ Log(<<"enable2", c1, c2>>, "error")
+WithEnter2(c1, c2) == /\ "with2" \in Alphabet /\ Valid(c1) /\ Valid(c2)
+                      /\ \E p1 \in ParamChoices(c1, NoParam), p2 \in ParamChoices(c2, NoParam) :
+                            active' = <<[ctx |-> c2, p |-> p2], [ctx |-> c1, p |-> p1]>> \o active
+                      /\ frames' = <<[n |-> 2, obs |-> Obs, ex |-> extra, sys |-> defsys, act |-> active]>> \o frames
+                      /\ UNCHANGED <<extra, defsys>> /\ Same /\ Log(<<"with_enter2", c1, c2>>, "ok")
+WithEnter2Fails(c1, c2) == /\ "with2" \in Alphabet /\ ~(Valid(c1) /\ Valid(c2))
+                           /\ UNCHANGED <<active, frames, extra, defsys>> /\ Same /\ Log(<<"with_enter2", c1, c2>>, "error")
 WithExit(how) == /\ "with" \in Alphabet /\ frames # <<>>
                  /\ active' = Drop(active, Head(frames).n) /\ frames' = Tail(frames)
                  /\ UNCHANGED <<extra, defsys>> /\ Same /\ Log(<<"with_exit", how>>, "ok")
@@ -163,7 +180,8 @@ Next == /\ Len(hist) < MaxOps
         /\ \/ \E c \in DOMAIN CtxPool, kw \in KwVals \cup {NoParam} :
                 (kw = NoParam \/ CtxPool[c].default # NoParam) /\ (Enable(c, kw) \/ EnableFails(c, kw))
            \/ \E c \in DOMAIN CtxPool : WithEnter(c, NoParam) \/ WithEnterFails(c, NoParam)
-           \/ \E n \in {0, 1, 2} : Disable(n)
+           \/ \E pr \in CtxPairs : Enable2(pr[1], pr[2]) \/ Enable2Fails(pr[1], pr[2]) \/ WithEnter2(pr[1], pr[2]) \/ WithEnter2Fails(pr[1], pr[2])
+           \/ \E n \in {0, 1, 2, 3} : Disable(n)
            \/ \E how \in {"normal", "raise"} : WithExit(how)
            \/ DefineNew
            \/ \E s \in DOMAIN Systems \cup {"none"} : SetSystem(s)
@@ -174,9 +192,11 @@ View == <<active, frames, extra, defsys>>
 \* ---- laws ----
 \* C12 stack discipline: the stack is exactly what the operations imply (by construction of the actions) and
 \* bounded by the operations performed; open frames never exceed it
-StackDiscipline == Len(active) <= Len(hist) /\ Len(frames) <= Len(hist)
+\* (a two-name call pushes two)
+StackDiscipline == Len(active) <= 2 * Len(hist) /\ Len(frames) <= Len(hist)
 \* C12 atomic failure: a failed activation leaves every observable answer as it was
-AtomicFailure == [][(\E c \in DOMAIN CtxPool, kw \in KwVals \cup {NoParam} : EnableFails(c, kw) \/ WithEnterFails(c, kw))
+AtomicFailure == [][((\E c \in DOMAIN CtxPool, kw \in KwVals \cup {NoParam} : EnableFails(c, kw) \/ WithEnterFails(c, kw))
+                       \/ (\E pr \in CtxPairs : Enable2Fails(pr[1], pr[2]) \/ WithEnter2Fails(pr[1], pr[2])))
                       => ObsOf(active', extra', defsys') = Obs /\ active' = active]_vars
 \* C12 no residue: leaving a with-block whose inner activations were balanced restores every answer to what it
 \* was at entry (definitions and system changes made inside persist by design and are excluded)
